@@ -584,8 +584,8 @@ def run(run):
     known = [e for e in known_entries() if e.get("status") == "open"]
     known_by_class = {e["class"]: e for e in known}
 
-    n_formulas = 60 if thorough else 8          # per grammar
-    n_trees = 24 if thorough else 9             # per grammar
+    n_formulas = 40 if thorough else 8          # per grammar
+    n_trees = 20 if thorough else 9             # per grammar
     shards, smeta = [], []
     hist = {"TT": 0, "FF": 0, "UU": 0, "raise": 0, "with_mexpr": 0, "concrete_syntax": 0, "direct": 0,
             "strategy2_numeric": 0, "unencodable": 0, "wide_tree_cases": 0}
@@ -757,8 +757,16 @@ def run(run):
     run.cov["disagreements_checked"] = len(corr_bad) + len(spec_failures)
     unknown_fail = []
     for m in spec_failures:
-        cls = ("K_vacuous_forall" if m.get("kvac") else "K_wide" if m.get("wide")
-               else "K_mexpr_eps_shape" if m.get("keps") else None)
+        # divergence kind of all three open classes: a DEFINITE verdict opposite to the spec
+        # (never an exception, never UNKNOWN); K_vacuous_forall only ever turns TRUE into FALSE
+        definite = (m["evaluate"][0] == "ok" and m["evaluate"][1] in ("TT", "FF") and m["check"][0] == "ok")
+        cls = None
+        if definite and m.get("kvac") and m["evaluate"][1] == "FF":
+            cls = "K_vacuous_forall"
+        elif definite and m.get("wide"):
+            cls = "K_wide"
+        elif definite and m.get("keps"):
+            cls = "K_mexpr_eps_shape"
         if cls and cls in known_by_class:
             run.known(known_by_class[cls]["what"])
             run.cov.setdefault("known_class_hits", {}).setdefault(cls, 0)
